@@ -250,10 +250,10 @@ class NDNApp:
         try:
             data_name, meta_info, content, sig, raw_packet = await aio.wait_for(future, timeout=lifetime/1000.0)
         except TimeoutError:
-            if node.timeout(future):
-                del self._int_tree[node_name]
+            self._remove_pending(future, node_name, node)
             raise InterestTimeout()
         except aio.CancelledError:
+            self._remove_pending(future, node_name, node)
             raise InterestCanceled()
         if validator is None:
             validator = self.data_validator
@@ -264,6 +264,13 @@ class NDNApp:
                 return data_name, meta_info, content
         else:
             raise ValidationFailure(data_name, meta_info, content, sig)
+
+    def _remove_pending(self, future: aio.Future, node_name: FormalName, node: InterestTreeNode):
+        # The node may already be unlinked from the tree (all its entries were satisfied, or the tree was
+        # cleared), and a new node may have been created under the same name since.
+        # Only remove the node this Interest was added to.
+        if node.timeout(future) and self._int_tree.get(node_name) is node:
+            del self._int_tree[node_name]
 
     async def main_loop(self, after_start: Awaitable = None) -> bool:
         """
